@@ -51,6 +51,9 @@ type Contract struct {
 	Bounded    string
 	Opaque     map[string]bool // struct types treated as opaque
 	Hide       map[string]bool // spec functions applied as uninterpreted functions of (arguments, rows read)
+	Asserts    []*Clause       // assert call=NAME#N label: expr  (checked right before the N-th call of NAME in source order)
+	CallKeeps  map[string][]*Expr // callkeeps NAME e1 ; e2: memory regions an unmodelled callee NAME leaves unchanged (assumption)
+	CallKeepSrc map[string][]string
 	Notes      []string
 	Replay     string // "auto" | "none" | template name
 	Timeout    int
@@ -251,7 +254,7 @@ func ParseContractFile(path, pkg string) (*ContractFile, error) {
 			if fn, v, ok := strings.Cut(rest, " as "); ok {
 				rest, variant = strings.TrimSpace(fn), strings.TrimSpace(v)
 			}
-			cur = &Contract{File: path, Line: linenos[i], Pkg: pkg, Name: rest, Variant: variant, Pure: map[string]bool{}, FnSpecs: map[string]string{}, Unroll: map[int]int{}, Opaque: map[string]bool{}, Hide: map[string]bool{}, Replay: "auto"}
+			cur = &Contract{File: path, Line: linenos[i], Pkg: pkg, Name: rest, Variant: variant, Pure: map[string]bool{}, FnSpecs: map[string]string{}, Unroll: map[int]int{}, Opaque: map[string]bool{}, Hide: map[string]bool{}, CallKeeps: map[string][]*Expr{}, CallKeepSrc: map[string][]string{}, Replay: "auto"}
 			cf.Contracts = append(cf.Contracts, cur)
 			lem = nil
 		case "lemma":
@@ -384,6 +387,43 @@ func ParseContractFile(path, pkg string) (*ContractFile, error) {
 				cur.NoOverflow = true
 			case "nosafety":
 				cur.NoPanicOff = true
+			case "assert":
+				m := regexp.MustCompile(`^call=([^#\s]+)#(\d+)\s+(.*)$`).FindStringSubmatch(rest)
+				if m == nil {
+					return nil, fail(i, "assert call=NAME#N [label:] expr")
+				}
+				c := &Clause{Kind: "assert", Line: linenos[i]}
+				c.Loop, _ = strconv.Atoi(m[2])
+				r := m[3]
+				if lm := labelRe.FindStringSubmatch(r); lm != nil && !strings.HasPrefix(lm[2], ":") {
+					c.Label = lm[1]
+					r = lm[2]
+				}
+				c.Src = r
+				e, err := ParseExpr(r)
+				if err != nil {
+					return nil, fail(i, "%v", err)
+				}
+				c.E = e
+				c.Kind = "assert:" + m[1]
+				cur.Asserts = append(cur.Asserts, c)
+			case "callkeeps":
+				name, exprs, _ := strings.Cut(rest, " ")
+				for _, es := range strings.Split(exprs, ";") {
+					es = strings.TrimSpace(es)
+					if es == "" {
+						continue
+					}
+					e, err := ParseExpr(es)
+					if err != nil {
+						return nil, fail(i, "%v", err)
+					}
+					cur.CallKeeps[name] = append(cur.CallKeeps[name], e)
+					cur.CallKeepSrc[name] = append(cur.CallKeepSrc[name], es)
+				}
+				if _, ok := cur.CallKeeps[name]; !ok {
+					cur.CallKeeps[name] = nil
+				}
 			case "hide":
 				for _, w := range strings.Fields(rest) {
 					cur.Hide[w] = true
